@@ -164,24 +164,25 @@ FamC08(dummy) ==
 StepC09(b, k) ==
   IF (b + k) % 2 = 0 THEN <<Item(IdOf(b, k, 1), "and_then", "closure", <<>>), Item(IdOf(b, k, 2), "map", "closure", <<>>)>>
   ELSE <<Item(IdOf(b, k, 1), "then", "closure", <<>>), Item(IdOf(b, k, 2), "and_then", "closure", <<>>)>>
+InC09(b) == IF b = 1 THEN "block" ELSE "expr"     \* laziness of block initial values, too
 FamC09(dummy) ==
   UNION {{Run(P, <<>>, G) : G \in {ItemIds(P, {"and_then"}), InitIds(P) \cup {90}, ItemIds(P, {"then"}) \cup {IidOf(0)}}} :
-         P \in {Build(Kind(TRUE, t, sp), "res", pr, StepC09, NoName, ExprInit, IF t THEN "and_then" ELSE "then") :
-                  t \in BOOLEAN, sp \in BOOLEAN,
+         P \in {[Build(Kind(TRUE, t, sp), "res", pr, StepC09, NoName, InC09, IF t THEN "and_then" ELSE "then") EXCEPT !.hform = hf] :
+                  t \in BOOLEAN, sp \in BOOLEAN, hf \in {"closure", "call"},
                   pr \in IF Tier = "quick" THEN {<<1>>, <<2>>, <<1, 1>>, <<2, 1>>, <<1, 2>>} ELSE Profiles(2, 3) \cup {<<1, 1, 1>>, <<2, 1, 2>>}}}
 
 \* ---- C10: every operator class, every operand form, faults and recoveries
 StepC10(b, k) ==
   CASE (b + k) % 3 = 0 -> <<Item(IdOf(b, k, 1), "map", "call", <<>>), Item(IdOf(b, k, 2), "and_then", "closure", <<>>),
-                            Item(IdOf(b, k, 3), "inspect", "closure", <<>>), Item(IdOf(b, k, 4), "or_else", "call", <<>>)>>
-    [] (b + k) % 3 = 1 -> <<Item(IdOf(b, k, 1), "then", "closure", <<>>), Item(IdOf(b, k, 2), "map_err", "closure", <<>>),
+                            Item(IdOf(b, k, 3), "inspect", "closure", <<>>), Item(IdOf(b, k, 4), "or_else", IF k > 0 THEN "block" ELSE "call", <<>>)>>
+    [] (b + k) % 3 = 1 -> <<Item(IdOf(b, k, 1), "then", IF k > 0 THEN "block" ELSE "closure", <<>>), Item(IdOf(b, k, 2), "map_err", IF k > 0 THEN "block" ELSE "closure", <<>>),
                             Item(IdOf(b, k, 3), "and_then", IF k > 0 THEN "block" ELSE "call", <<>>)>>
     [] OTHER -> <<Item(IdOf(b, k, 1), "and_then", "closure", <<>>), Item(IdOf(b, k, 2), "or", "call", <<>>),
                   Item(IdOf(b, k, 3), "dot", "closure", <<>>), Item(IdOf(b, k, 4), "inspect", IF k > 0 THEN "block" ELSE "closure", <<>>)>>
 StepC10a(b, k) ==  \* async subset (no `or`, no `dot`)
   CASE (b + k) % 2 = 0 -> <<Item(IdOf(b, k, 1), "map", "call", <<>>), Item(IdOf(b, k, 2), "and_then", "closure", <<>>),
-                            Item(IdOf(b, k, 3), "inspect", "closure", <<>>), Item(IdOf(b, k, 4), "or_else", "call", <<>>)>>
-    [] OTHER -> <<Item(IdOf(b, k, 1), "then", "closure", <<>>), Item(IdOf(b, k, 2), "map_err", "closure", <<>>),
+                            Item(IdOf(b, k, 3), "inspect", "closure", <<>>), Item(IdOf(b, k, 4), "or_else", IF k > 0 THEN "block" ELSE "call", <<>>)>>
+    [] OTHER -> <<Item(IdOf(b, k, 1), "then", "closure", <<>>), Item(IdOf(b, k, 2), "map_err", IF k > 0 THEN "block" ELSE "closure", <<>>),
                   Item(IdOf(b, k, 3), "and_then", IF k > 0 THEN "block" ELSE "call", <<>>)>>
 StepC10o(b, k) ==  \* Option carrier
   <<Item(IdOf(b, k, 1), "and_then", "closure", <<>>), Item(IdOf(b, k, 2), "filter", "closure", <<>>),
@@ -243,7 +244,12 @@ StepC16(b, k) == <<Item(IdOf(b, k, 1), "and_then", IF k = 1 THEN "block" ELSE "c
 OptsC16(kd) ==
   {[joiner |-> j, lazy |-> l, transpose |-> "default", path |-> p] :
      j \in {"none", "eager", "lazy"}, l \in {"default", "true", "false"}, p \in {"default", "custom"}}
+  \cup {[joiner |-> "try", lazy |-> "default", transpose |-> "false", path |-> "default"],      \* sync: transposing joiner
+        [joiner |-> "eager", lazy |-> "default", transpose |-> "false", path |-> "default"],    \* async: try_join! as joiner
+        [joiner |-> "eager", lazy |-> "default", transpose |-> "false", path |-> "custom"]}
 OkOpts(kd, o) ==
+  /\ (o.transpose = "false" => kd.try /\ ~(kd.spawn /\ ~kd.async))
+  /\ (o.joiner = "try" <=> (o.transpose = "false" /\ ~kd.async))
   /\ (o.path = "custom" => kd.async)
   /\ (o.joiner = "lazy" <=> (o.lazy = "true" /\ ~(kd.spawn /\ ~kd.async)))   \* a lazy joiner calls closures
   /\ (kd.spawn /\ ~kd.async => o.lazy # "false")                             \* thread::spawn needs a closure
